@@ -390,6 +390,14 @@ def gen_C03(rng, tier):
         out.append((vline(dg, M.random_point(rng, True), m, R8, S), 'foreign-key'))
         out.append((vline(dg, pk, (m + 1) % M.Q, R8, S), 'foreign-msg'))
         out.append((vline(dg, pk, M.Q + m, R8, S), 'msg+q'))
+        out.append((vline(dg, pk, m - M.Q, R8, S), 'msg-q'))
+        out.append((vline(dg, pk, m, (R8[0] + M.Q, R8[1]), S), 'noncanonical-R8x'))
+        out.append((vline(dg, pk, m, (R8[0], R8[1] + M.Q), S), 'noncanonical-R8y'))
+        out.append((vline(dg, pk, m, (R8[0] - M.Q, R8[1]), S), 'noncanonical-R8x'))
+        out.append((vline(dg, (pk[0] + M.Q, pk[1]), m, R8, S), 'noncanonical-Ax'))
+        out.append((vline(dg, (pk[0], pk[1] + M.Q), m, R8, S), 'noncanonical-Ay'))
+        out.append((vline(dg, ((-pk[0]) % M.Q, pk[1]), m, R8, S), 'negated-A'))
+        out.append((vline(dg, R8, m, pk, S), 'A-and-R8-swapped'))
         for S2 in (0, 1, M.L - 1, (S + 1) % M.L, (S - 1) % M.L, rng.randrange(M.L)):
             out.append((vline(dg, pk, m, R8, S2), 'altered-S'))
         # keys and nonce points with a small-order component: tuples that SATISFY the
@@ -462,6 +470,11 @@ def gen_C14(rng, tier):
             out.append((vline(dg, Asm, m, (0, 1), -M.L), 'S=-l/small-order-key'))
         for v in (-1, -S, -M.L, M.L, M.L + 1, 2**256 - 1, 2**256, S - M.L, S - 8 * M.L):
             out.append((vline(dg, pk, m, R8, v), 'noncanonical-const'))
+        # ACCEPTED tuples with S at the top of the range (key of small order: 8*hm*A = O, so
+        # S*B8 = R8 is the whole equation): an upper bound that is off by one downwards fails here
+        for S9 in (M.L - 1, M.L - 2, 2**250, (M.L + 2**250) // 2, rng.randrange(2**250, M.L)):
+            T9 = rng.choice(sm)
+            out.append((vline(dg, T9, m, M.ed_mul(S9, M.B8), S9), 'verify-honest/top-of-range-S'))
         for kk in (1, 2, kmax):
             comp = M.compress(R8) + ((S + kk * M.L) % 2**256).to_bytes(32, 'little')
             out.append(('sigdecompc ' + M.hexb(comp), 'decode-noncanonical-S'))
@@ -476,6 +489,13 @@ def history_lines(rng, tier):
         cs = g(rng, 'quick')
         rng.shuffle(cs)
         pool.append(cs)
+    sigl = []
+    for (dg, k, pk, m, R8, S) in honest_sigs(rng, 'quick', 3):
+        comp = M.compress(R8) + S.to_bytes(32, 'little')
+        sigl += [(vline(dg, pk, m, R8, S), 'verify-honest/history'), ('sigdecompc ' + M.hexb(comp), 'sigdecompc/honest'),
+                 ('sigdecomp ' + M.hexb(comp), 'sigdecomp/honest'), ('pkdecomp ' + M.hexb(M.compress(pk)), 'pkdecomp/honest'),
+                 (('signp %s %d' if dg == 'p' else 'signm %s %d') % (M.hexb(k), m), 'sign/history'), ('public ' + M.hexb(k), 'public/history')]
+    pool.append(sigl)
     gl = gens.gen_C16_globals(rng, tier)
     rng.shuffle(gl)
     pool.append(gl)
@@ -490,7 +510,7 @@ def history_lines(rng, tier):
     # one representative of EVERY class of every generator (rare branches such as the degenerate
     # projective triple or an all-zero batch would otherwise be drawn only now and then)
     strat = []
-    for cs in pool[:-2]:
+    for cs in pool[:-2]:    # every generator and the honest-signature lines
         seen = {}
         for c in cs:
             seen.setdefault(c[1], c)
@@ -501,7 +521,7 @@ def history_lines(rng, tier):
 
 
 # ------------------------------------------------------------------ registry
-P386 = ('C01', 'C04', 'C05', 'C08', 'C11', 'C18')   # also run on the GOARCH=386 build (portable ff code through the public API)
+P386 = ('C01', 'C04', 'C05', 'C08', 'C09', 'C10', 'C11', 'C18')   # also run on the GOARCH=386 build (portable ff code through the public API)
 
 SIMPLE = {
     'C01': gens.gen_C01, 'C04': gens.gen_C04, 'C05': gens.gen_C05, 'C06': gens.gen_C06, 'C07': gens.gen_C07,
